@@ -197,6 +197,9 @@ func runReplayTest(pkg, src, work string) (string, bool) {
 	if len(s) > 6000 {
 		s = s[:3000] + "\n...\n" + s[len(s)-3000:]
 	}
+	if strings.Contains(src, "//replay:race") {
+		return s, strings.Contains(s, "WARNING: DATA RACE")
+	}
 	return s, strings.Contains(s, "REPLAY-CONFIRMED")
 }
 
